@@ -21,7 +21,7 @@ The verdict always comes from the real code: a panic that the spec attributes to
 channel under pending deliveries carries the root-cause signature ROOT (known finding until the fix is
 committed); any other failure is a different signature.
 """
-import collections, json, os, random, subprocess, sys, threading
+import atexit, collections, json, os, random, signal, subprocess, sys, threading, time
 sys.path.insert(0, os.path.join(os.path.dirname(os.path.abspath(__file__)), "..", "lib"))
 import vlib
 
@@ -141,22 +141,75 @@ SELFTEST_EP = 999999
 MAX_BAD = 3   # a failing case costs a timeout: after this many in one chain the rest is not run (exit 1 anyway)
 
 
-def run_subject(binp, args_for, lo, hi):
+_children = set()
+_children_lock = threading.Lock()
+
+
+def _kill_children():
+    with _children_lock:
+        for p in list(_children):
+            try:
+                p.kill()
+            except Exception:
+                pass
+
+
+atexit.register(_kill_children)
+for _sig in (signal.SIGTERM, signal.SIGINT, signal.SIGHUP):
+    signal.signal(_sig, lambda *a: sys.exit(2))   # -> atexit: no subject process survives the check
+
+
+class Budget:
+    """Shared by all subject chains of one stage: stop starting work after `max_bad` cases in which the real code
+    did not do what the spec says (each of them cost a timeout) or after `wall` seconds."""
+
+    def __init__(self, max_bad, wall):
+        self.max_bad, self.deadline, self.bad, self.lock = max_bad, time.time() + wall, 0, threading.Lock()
+
+    def note_bad(self, n=1):
+        with self.lock:
+            self.bad += n
+
+    def exhausted(self):
+        return self.bad >= self.max_bad or time.time() > self.deadline
+
+    def remaining(self):
+        return max(5.0, self.deadline - time.time())
+
+
+def run_subject(binp, args_for, lo, hi, budget=None):
     """Run items lo..hi-1 in subject processes, restarting after each death. args_for(i) -> argv tail.
-    Returns ({i: record}, fail_records, summary, restarts)."""
+    Returns ({i: record}, fail_records, summary, restarts). Every wait is bounded: a subject that outlives the
+    budget is killed."""
     res, fails, summary, restarts = {}, [], None, 0
+    budget = budget or Budget(MAX_BAD, 3000)
     i = lo
     while i < hi:
-        if sum(1 for r in res.values() if r.get("outcome") == "fail") >= MAX_BAD:
+        if budget.exhausted():
             res["aborted"] = {"outcome": "aborted"}
             break
-        p = subprocess.run([binp] + args_for(i), stdout=subprocess.PIPE, stderr=subprocess.PIPE, timeout=3600)
+        p = subprocess.Popen([binp] + args_for(i), stdout=subprocess.PIPE, stderr=subprocess.PIPE)
+        with _children_lock:
+            _children.add(p)
+        try:
+            out, errb = p.communicate(timeout=budget.remaining() + 60)
+        except subprocess.TimeoutExpired:
+            p.kill()
+            out, errb = p.communicate()
+            res["aborted"] = {"outcome": "aborted", "why": "wall budget"}
+        finally:
+            with _children_lock:
+                _children.discard(p)
+        p.stdout_bytes, p.stderr_bytes = out, errb
         restarts += 1
         cur = step = None
-        for line in p.stdout.decode(errors="replace").splitlines():
+        for line in p.stdout_bytes.decode(errors="replace").splitlines():
             if not line.startswith("{"):
                 continue
-            r = json.loads(line)
+            try:
+                r = json.loads(line)
+            except ValueError:
+                continue
             k = r.get("kind")
             if k == "begin":
                 cur, step = r["i"], None
@@ -165,11 +218,15 @@ def run_subject(binp, args_for, lo, hi):
             elif k == "result":
                 res[r["i"]] = r
                 cur = None
+                if r.get("outcome") in ("fail", "drift"):
+                    budget.note_bad()
             elif k == "fail":
                 fails.append(r)
             elif k == "summary":
                 summary = r
-        err = p.stderr.decode(errors="replace")
+        err = p.stderr_bytes.decode(errors="replace")
+        if "aborted" in res:
+            break
         if "HARNESS-ERROR" in err or p.returncode == 4:
             raise vlib.InfraError("c19 harness: " + err[-2000:])
         if cur is not None:
@@ -192,7 +249,7 @@ def run_subject(binp, args_for, lo, hi):
     return res, fails, summary, restarts
 
 
-def replay_parallel(binp, scheds, shards, sc, tmo):
+def replay_parallel(binp, scheds, shards, sc, tmo, budget=None):
     """Replay schedules in `shards` parallel subject chains. Returns list of (schedule, record)."""
     parts = [scheds[k::shards] for k in range(shards)]
     results = [None] * shards
@@ -205,7 +262,7 @@ def replay_parallel(binp, scheds, shards, sc, tmo):
                 for s in parts[k]:
                     fh.write(json.dumps({"id": s["id"], "steps": s["steps"], "final": s["final"],
                                          "stall_at": s.get("stall_at", -1), "stall_ms": s.get("stall_ms", 0)}) + "\n")
-            res, _, _, restarts = run_subject(binp, lambda i: ["replay", path, str(i), str(tmo)], 0, len(parts[k]))
+            res, _, _, restarts = run_subject(binp, lambda i: ["replay", path, str(i), str(tmo)], 0, len(parts[k]), budget)
             results[k] = (res, restarts)
         except Exception as e:  # noqa
             errors.append(e)
@@ -389,10 +446,26 @@ def main():
             raise vlib.InfraError("repaired design violates %s with 3 clients" % big.violated)
         ck.add_tlc(big, "Sse_mc safety: 3 clients x 2 broadcasts")
     negs = {}
-    for cfg, inv in (("Sse_close.cfg", "NoPanic"), ("Sse_noclose.cfg", "NoLeak"), ("Sse_locked.cfg", "BroadcasterNeverBlocks"),
-                     ("Sse_timeoutdrop.cfg", "DeliveredAtQuiescence"), ("Sse_timeoutdrop_live.cfg", "Delivered")):
-        r = vlib.tlc("Sse", cfg, workers=1, timeout=300)
-        if r.violated != inv and not (inv == "Delivered" and r.violated == "TemporalProperty"):
+    neglist = (("Sse_close.cfg", "NoPanic"), ("Sse_noclose.cfg", "NoLeak"), ("Sse_locked.cfg", "BroadcasterNeverBlocks"),
+               ("Sse_serial.cfg", "OthersUnaffected"), ("Sse_serial_live.cfg", "DeliveredDespiteStalledClient"),
+               ("Sse_timeoutdrop.cfg", "DeliveredAtQuiescence"), ("Sse_timeoutdrop_live.cfg", "Delivered"))
+    negres, negerr = {}, []
+
+    def negrun(cfg):
+        try:
+            negres[cfg] = vlib.tlc("Sse", cfg, workers=1, timeout=300)
+        except Exception as e:  # noqa
+            negerr.append(e)
+    ths = [threading.Thread(target=negrun, args=(cfg,)) for cfg, _ in neglist]   # independent small runs, side by side
+    for t in ths:
+        t.start()
+    for t in ths:
+        t.join()
+    if negerr:
+        raise negerr[0] if isinstance(negerr[0], vlib.InfraError) else vlib.InfraError(repr(negerr[0]))
+    for cfg, inv in neglist:
+        r = negres[cfg]
+        if r.violated != inv and not (inv in ("Delivered", "DeliveredDespiteStalledClient") and r.violated == "TemporalProperty"):
             raise vlib.InfraError("negative config %s was not rejected with %s (got %s)" % (cfg, inv, r.violated))
         negs[cfg] = inv
         if cfg == "Sse_close.cfg":
@@ -442,7 +515,10 @@ def main():
     for s in chosen:
         covered.update(s["edges"])
     vlib.log("replaying %d of %d schedules (%d edges of %d)" % (len(chosen), len(scheds), len(covered), nedges))
-    out, restarts = replay_parallel(binp, chosen, 12 if thorough else 8, sc, 20 if thorough else 10)
+    # a case in which the real code does not take a step the spec says is enabled costs a timeout: after a dozen of
+    # them (or the wall budget) nothing more is started; the verdict is then exit 1 (violations) or exit 2 (only drift)
+    budget = Budget(12, 1500 if thorough else 240)
+    out, restarts = replay_parallel(binp, chosen, 12 if thorough else 8, sc, 20 if thorough else 10, budget)
     counts = collections.Counter()
     for s, r in out:
         if s is None:
@@ -451,7 +527,8 @@ def main():
         judge(ck, design, s, r, counts)
     nrep = sum(1 for s, _ in out if s is not None)
     if nrep != len(chosen) and not counts["fail"]:
-        raise vlib.InfraError("replayed %d of %d schedules" % (nrep, len(chosen)))
+        raise vlib.InfraError("replayed %d of %d schedules (%d cases of model drift, budget %s)" % (
+            nrep, len(chosen), counts["drift"], "exhausted" if budget.exhausted() else "left"))
     # binding self-test: a schedule whose predicted outcome is corrupted must be reported by the harness
     # (only meaningful while the tree behaves: with violations on the table the verdict is exit 1 anyway)
     if not ck._nviol:
